@@ -184,7 +184,7 @@ impl State {
         }
         if gap_first {
             // later segments of one write leave back-to-back: a small gap, not another latency
-            at = e.last_at.max(now + self.net.cfg.latency_min_ns) + 1 + lat % 20_000;
+            at = e.last_at.max(now + self.net.cfg.latency_min_ns) + 1 + lat % 500;
         }
         e.last_at = at;
         if let Item::Data(d) = &item {
